@@ -18,11 +18,14 @@ import (
 )
 
 // Frame is one activation (the function under contract, or an inlined callee).
+type mapStep struct{ old, key, ok string }
+
 type Frame struct {
 	u        *Unit
 	fn       *ssa.Function
 	contract *Contract
 	curFn    Val // function value of the field call being applied (fnval in field contracts)
+	mapSteps map[string]mapStep // visited-set term after a map-range step -> what the step added
 	pendingCall *ssa.CallCommon // the external call being abstracted (abstractCall's fallback needs its operands)
 	vals     map[ssa.Value]Val
 	endCur   map[int]string // path condition at end of block
@@ -1418,6 +1421,7 @@ func (f *Frame) next(x *ssa.Next, st *state) {
 	dom, val := u.mapArrs(mt)
 	ks := u.D.SortOf(mt.Key())
 	k := u.fresh("next.k", ks)
+	u.assumeRange(k, mt.Key()) // a key of the map is a value of its key type
 	v := u.define("next.v", u.D.SortOf(mt.Elem()), sel(sel(u.hget(st.heap, val), m), k))
 	// Go's map iteration yields every key exactly once (the map is not modified while
 	// ranging over it in the code under contract): ok => a key not seen before;
@@ -1430,6 +1434,12 @@ func (f *Frame) next(x *ssa.Next, st *state) {
 	u.emit(fmt.Sprintf("(assert (=> (not %s) (forall ((x %s)) (! (=> (and (not (= %s 0)) (select %s x)) (select %s x)) :pattern ((select %s x))))))", ok, ks, m, d, vis, d))
 	u.emit(fmt.Sprintf("(assert (forall ((x %s)) (! (=> (select %s x) (and (not (= %s 0)) (select %s x))) :pattern ((select %s x)))))", ks, vis, m, d, vis))
 	u.hset(st.heap, vn, ite(ok, sto(vis, k, "true"), vis))
+	// recorded for countval(): the visited set after this step is the one before plus, when the
+	// iteration goes on, the one new key k (not visited before)
+	if f.mapSteps == nil {
+		f.mapSteps = map[string]mapStep{}
+	}
+	f.mapSteps[u.hget(st.heap, vn)] = mapStep{old: vis, key: k, ok: ok}
 	u.wellFormedLoaded(st.heap, v, mt.Elem())
 	f.vals[x] = Val{Typ: x.Type(), Tup: []Val{{T: ok, Typ: tup.At(0).Type()}, {T: k, Typ: mt.Key()}, {T: v, Typ: mt.Elem()}}}
 }
